@@ -176,7 +176,7 @@ class TablerowNode(Node):
         self.blank = False
 
     def __str__(self) -> str:
-        return f"tablerow({self.expression}) {{ {self.block} }}"
+        return f"{{% tablerow {self.expression} %}}{self.block}{{% endtablerow %}}"
 
     def _int_or_zero(self, arg: object) -> int:
         try:
